@@ -384,7 +384,7 @@ func checkC19(c *km.Ctx) {
 	// default refuses must not leave an offered type out)
 	algos := map[string]bool{"ssh-rsa": true, "ssh-ed25519": true, "ecdsa-sha2-nistp256": true, "ecdsa-sha2-nistp384": true, "ecdsa-sha2-nistp521": true}
 	for _, fn := range c.P.AllFuncs {
-		if fn.Pkg == nil || fn.Pkg.Pkg.Path() != KMD {
+		if fn.Pkg == nil || !pkgIsKMD(fn.Pkg) {
 			continue
 		}
 		named := map[string]bool{}
